@@ -19,7 +19,8 @@ RULE = ("One case = (grid shape, centre cell, radius); for it all 2 neighbourhoo
         "brute-force scan of all cells by Chebyshev/Manhattan distance in ascending cell order; the id form must be "
         "the row indices of the same cells in the world's position table. Also unknown mode -> KeyError, unknown "
         "ret_type / centre type -> TypeError. Non-trivial: ball clipped by a border, or radius >= 2, or non-cubic shape. "
-        "Distinct = digest of (shape, centre, radius).")
+        "Distinct = digest of (shape, centre, radius)."
+        " Added in rounds 19-24: the model may be marked complete; incl_center as numpy boolean and as the integers 1 / 0; radii at and beyond the 64-bit limits for Python-number centres.")
 EXHAUSTIVE_DOMAIN = ("shapes {0..3}^3 (thorough {0..4}^3) as DiscreteWorld plus LineWorld(1..4)/GridWorld(1..4 x 1..4) x every "
                      "centre cell x radius 0..max extent+2; plus a diameter sweep on 4x4x4, 5x4x5, 4x5x6, 5x5x0 (thorough also 5x5x5, 6x6x6): corner / edge / middle "
                      "centres x every radius from the largest extent - 1 to the Manhattan diameter")
